@@ -13,6 +13,20 @@ for path, blocks in sigs.items():
     lines = open(path).read().split("\n")
     out, i, changed = [], 0, 0
     while i < len(lines):
+        mo = re.match(r"^//@ operator (\S+)\s*$", lines[i])
+        if mo and ("operator " + mo.group(1) + "#scope") in blocks:
+            # operator blocks only get the scope fingerprint (the identifiers that existed when the contract was written)
+            out.append(lines[i])
+            i += 1
+            body = []
+            while i < len(lines) and lines[i].startswith("//@   "):
+                body.append(lines[i])
+                i += 1
+            body = [l for l in body if not l.startswith("//@   scope ")]
+            k = next((j + 1 for j, l in enumerate(body) if l.startswith("//@   props")), 0)
+            body.insert(k, "//@   scope " + " ".join(blocks["operator " + mo.group(1) + "#scope"]))
+            out.extend(body)
+            continue
         m = re.match(r"^//@ func (\S+)\s*$", lines[i])
         out.append(lines[i])
         i += 1
@@ -22,7 +36,7 @@ for path, blocks in sigs.items():
         while i < len(lines) and lines[i].startswith("//@   "):
             body.append(lines[i])
             i += 1
-        body = [l for l in body if not l.startswith("//@   binds ") and not l.startswith("//@   calls ") and not l.startswith("//@   params ")]
+        body = [l for l in body if not l.startswith("//@   binds ") and not l.startswith("//@   calls ") and not l.startswith("//@   params ") and not l.startswith("//@   scope ")]
         text = " ".join(l for l in body if not re.match(r"^//@   (note|props)\b", l))
         used = set(idre.findall(text))
         names = []
@@ -39,6 +53,11 @@ for path, blocks in sigs.items():
                 body.insert(k + 1, "//@   calls " + " ".join(calls))
                 body.insert(k + 2, "//@   params " + " ".join(blocks.get(m.group(1) + "#params") or ["-"]))
             changed += 1
+        sc = blocks.get(m.group(1) + "#scope")
+        if sc and names:
+            k = next((j + 1 for j, l in enumerate(body) if l.startswith("//@   params ") or l.startswith("//@   binds ")), 0)
+            k = max([j + 1 for j, l in enumerate(body) if l.startswith("//@   params ") or l.startswith("//@   binds ") or l.startswith("//@   calls ")] or [0])
+            body.insert(k, "//@   scope " + " ".join(sc))
         out.extend(body)
     new = "\n".join(out)
     if new != "\n".join(lines):
